@@ -223,6 +223,13 @@ def eval_case(case):
         try:
             for js in (False, True):
                 spec = {'banner': peer.get('banner') or 'SSH-2.0-OpenSSH_9.0', 'kex': peer['kex'], 'key': peer['key'], 'enc': peer['enc'], 'mac': peer['mac'], 'comp': peer.get('comp', ['none'])}
+                if peer.get('measured'):
+                    # the sizes the policy speaks about are measured by the probes: the server answers them with keys / groups of those sizes
+                    spec['banner'] = 'SSH-2.0-dropbear_2022.83'
+                    spec['hostkeys'] = {k: {'t': 'rsa', 'bits': v[0]} for k, v in (peer.get('hks') or {}).items()}
+                    spec['hostkeys']['ssh-ed25519'] = {'t': 'ed25519'}
+                    spec['moduli_by_alg'] = {a: [sz] for a, sz in (peer.get('dh') or {}).items()}
+                    spec['gex_style'] = 'roundup'
                 net = fakenet.FakeNet()
                 srv = fakenet.Server(spec)
                 if pol.get('client'):
@@ -472,6 +479,22 @@ def run(ctx):
             pol['kex'] = [C_MARK if x == S_MARK else x for x in pol['kex']]
             peer = dict(c['peer'], kex=[C_MARK if x == S_MARK else x for x in c['peer']['kex']])
             cli.append({'kind': 'cli', 'pol': pol, 'peer': peer})
+    # size directives through the CLI: the sizes come from the probes (policies with and without a key-exchange / host-key line)
+    G256, G1 = 'diffie-hellman-group-exchange-sha256', 'diffie-hellman-group-exchange-sha1'
+    for ps in (2048, 3072, 4096):
+        for qs in (2048, 3072, 4096):
+            for larger in (False, True):
+                for with_lists in (False, True):
+                    peer = {'kex': ['curve25519-sha256', G256, G1], 'key': ['rsa-sha2-512', 'ssh-ed25519'], 'enc': ['aes128-ctr'], 'mac': ['hmac-sha2-256'], 'measured': True,
+                            'dh': {G256: qs, G1: qs}, 'hks': {'rsa-sha2-512': [qs, '', 0], 'rsa-sha2-256': [qs, '', 0], 'ssh-rsa': [qs, '', 0]}}
+                    pol = {'dh': {G256: ps}, 'larger': larger}
+                    if with_lists:
+                        pol['kex'] = peer['kex']
+                    cli.append({'kind': 'cli', 'pol': pol, 'peer': peer})
+                    pol2 = {'hks': {'rsa-sha2-512': {'hostkey_size': ps}}, 'larger': larger}
+                    if with_lists:
+                        pol2['key'] = peer['key']
+                    cli.append({'kind': 'cli', 'pol': pol2, 'peer': peer})
     # several peers against one policy in one -T run (each target's verdict and error list are its own)
     by_pol = {}
     for c in sample[:4000]:
